@@ -24,6 +24,9 @@ func inBubble(t *testing.T, spec kernel.Spec, body func(o *kernel.Outcome, tape 
 	o := kernel.NewOutcome(spec)
 	infra := kernel.Bubble(t, spec.Seed, func(t *testing.T) {
 		tape := kernel.NewTape(spec.Seed, spec.Over)
+		if spec.SequentialGroups {
+			tape.ZeroPrefixes = kernel.GroupStreams
+		}
 		body(o, tape)
 	})
 	if infra != "" && o.Infra == "" {
